@@ -718,4 +718,129 @@ theorem Good.buckets : ∀ (bs : List (RBucket FV)) (acc : MinMax) (S : List FV)
     have := Good.buckets bs _ (S ++ b.samples) (g.merge gb) (fun b' hb' => h b' (by simp [hb']))
     simpa [List.append_assoc] using this
 
+/-! ### the three stores of the sketch: everything a quantile can answer with is a retained sample -/
+
+/-- `s` holds exactly (as far as membership and the count go) the samples `xs` -/
+structure Within (minU : Nat) (s : Sketch) (xs : List FV) : Prop where
+  neg : ∀ v ∈ s.neg, v ∈ xs ∧ clsOf minU v = .neg
+  pos : ∀ v ∈ s.pos, v ∈ xs ∧ clsOf minU v = .pos
+  zero : 0 < s.zero → ∃ v ∈ xs, clsOf minU v = .zero
+  count : s.count = xs.length
+
+theorem Within.empty (minU : Nat) : Within minU {} [] :=
+  ⟨by simp, by simp, by simp, by simp [Sketch.count]⟩
+
+theorem Within.add {minU : Nat} {s : Sketch} {xs : List FV} (w : Within minU s xs) (v : FV) :
+    Within minU (s.add minU v) (xs ++ [v]) := by
+  unfold Sketch.add
+  cases hc : clsOf minU v with
+  | pos =>
+    refine ⟨fun x hx => ?_, fun x hx => ?_, fun hz => ?_, ?_⟩
+    · obtain ⟨a, b⟩ := w.neg x hx; exact ⟨by simp [a], b⟩
+    · simp only [List.mem_append, List.mem_singleton] at hx
+      rcases hx with hx | rfl
+      · obtain ⟨a, b⟩ := w.pos x hx; exact ⟨by simp [a], b⟩
+      · exact ⟨by simp, hc⟩
+    · obtain ⟨x, hx, hx'⟩ := w.zero hz; exact ⟨x, by simp [hx], hx'⟩
+    · have := w.count; simp only [Sketch.count, List.length_append, List.length_singleton] at this ⊢; omega
+  | neg =>
+    refine ⟨fun x hx => ?_, fun x hx => ?_, fun hz => ?_, ?_⟩
+    · simp only [List.mem_append, List.mem_singleton] at hx
+      rcases hx with hx | rfl
+      · obtain ⟨a, b⟩ := w.neg x hx; exact ⟨by simp [a], b⟩
+      · exact ⟨by simp, hc⟩
+    · obtain ⟨a, b⟩ := w.pos x hx; exact ⟨by simp [a], b⟩
+    · obtain ⟨x, hx, hx'⟩ := w.zero hz; exact ⟨x, by simp [hx], hx'⟩
+    · have := w.count; simp only [Sketch.count, List.length_append, List.length_singleton] at this ⊢; omega
+  | zero =>
+    refine ⟨fun x hx => ?_, fun x hx => ?_, fun _ => ⟨v, by simp, hc⟩, ?_⟩
+    · obtain ⟨a, b⟩ := w.neg x hx; exact ⟨by simp [a], b⟩
+    · obtain ⟨a, b⟩ := w.pos x hx; exact ⟨by simp [a], b⟩
+    · have := w.count; simp only [Sketch.count, List.length_append, List.length_singleton] at this ⊢; omega
+
+theorem Within.merge {minU : Nat} {s o : Sketch} {xs ys : List FV} (ws : Within minU s xs) (wo : Within minU o ys) :
+    Within minU (s.merge o) (xs ++ ys) := by
+  refine ⟨fun x hx => ?_, fun x hx => ?_, fun hz => ?_, ?_⟩
+  · simp only [Sketch.merge, List.mem_append] at hx
+    rcases hx with hx | hx
+    · obtain ⟨a, b⟩ := ws.neg x hx; exact ⟨by simp [a], b⟩
+    · obtain ⟨a, b⟩ := wo.neg x hx; exact ⟨by simp [a], b⟩
+  · simp only [Sketch.merge, List.mem_append] at hx
+    rcases hx with hx | hx
+    · obtain ⟨a, b⟩ := ws.pos x hx; exact ⟨by simp [a], b⟩
+    · obtain ⟨a, b⟩ := wo.pos x hx; exact ⟨by simp [a], b⟩
+  · simp only [Sketch.merge] at hz
+    by_cases h : 0 < s.zero
+    · obtain ⟨x, hx, hx'⟩ := ws.zero h; exact ⟨x, by simp [hx], hx'⟩
+    · obtain ⟨x, hx, hx'⟩ := wo.zero (by omega); exact ⟨x, by simp [hx], hx'⟩
+  · have a := ws.count; have b := wo.count
+    simp only [Sketch.count, Sketch.merge, List.length_append] at a b ⊢; omega
+
+theorem Within.bucket (minU : Nat) : ∀ (ys : List FV) (acc : Sketch) (xs : List FV), Within minU acc xs →
+    Within minU (ys.foldl (Sketch.add minU) acc) (xs ++ ys)
+  | [], acc, xs, w => by simpa using w
+  | y :: ys, acc, xs, w => by
+    have := Within.bucket minU ys (acc.add minU y) (xs ++ [y]) (w.add y)
+    simpa [List.append_assoc] using this
+
+theorem Within.buckets (minU : Nat) : ∀ (bs : List (RBucket FV)) (acc : Sketch) (xs : List FV), Within minU acc xs →
+    Within minU (bs.foldl (fun acc b => acc.merge (bucketSketch minU b.samples)) acc) (xs ++ bs.flatMap (·.samples))
+  | [], acc, xs, w => by simpa using w
+  | b :: bs, acc, xs, w => by
+    have wb : Within minU (bucketSketch minU b.samples) b.samples := by
+      have := Within.bucket minU b.samples {} [] (Within.empty minU)
+      simpa [bucketSketch] using this
+    have := Within.buckets minU bs _ (xs ++ b.samples) (w.merge wb)
+    simpa [List.append_assoc] using this
+
+theorem Within.snapshot (minU : Nat) (r : Rolling FV) (now : Nat) :
+    Within minU (snapshotSketch minU r now) (r.snapshot now) := by
+  have := Within.buckets minU (liveAt r.maxBucketDuration now r.buckets) {} [] (Within.empty minU)
+  simpa [snapshotSketch, Rolling.snapshot] using this
+
+theorem mem_insertBy (le : FV → FV → Bool) (x a : FV) : ∀ l : List FV, a ∈ insertBy le x l ↔ a = x ∨ a ∈ l
+  | [] => by simp [insertBy]
+  | y :: ys => by
+    unfold insertBy
+    split
+    · simp
+    · simp only [List.mem_cons, mem_insertBy le x a ys]
+      constructor
+      · rintro (h | h | h)
+        · exact Or.inr (Or.inl h)
+        · exact Or.inl h
+        · exact Or.inr (Or.inr h)
+      · rintro (h | h | h)
+        · exact Or.inr (Or.inl h)
+        · exact Or.inl h
+        · exact Or.inr (Or.inr h)
+
+theorem mem_sortBy (le : FV → FV → Bool) (a : FV) : ∀ l : List FV, a ∈ sortBy le l ↔ a ∈ l
+  | [] => by simp [sortBy]
+  | y :: ys => by
+    have ih := mem_sortBy le a ys
+    simp only [sortBy, List.foldr_cons] at ih ⊢
+    rw [mem_insertBy, ih]; simp
+
+theorem storeAtRank_mem (le : FV → FV → Bool) (store : List FV) (rank : Nat) (x : FV)
+    (h : storeAtRank le store rank = some x) : x ∈ store := by
+  unfold storeAtRank at h
+  split at h
+  · rename_i y hy
+    cases h
+    exact (mem_sortBy le _ store).mp (List.mem_of_getElem? hy)
+  · exact (mem_sortBy le _ store).mp (List.mem_of_getLast? h)
+
+theorem storeAtRank_none (le : FV → FV → Bool) (store : List FV) (rank : Nat)
+    (h : storeAtRank le store rank = none) : store = [] := by
+  unfold storeAtRank at h
+  split at h
+  · cases h
+  · have : sortBy le store = [] := List.getLast?_eq_none_iff.mp h
+    cases store with
+    | nil => rfl
+    | cons y ys =>
+      have hm : y ∈ sortBy le (y :: ys) := (mem_sortBy le y (y :: ys)).mpr (by simp)
+      rw [this] at hm; cases hm
+
 end MetricsVerif.Rolling
